@@ -1,5 +1,7 @@
 mod common;
+mod duo;
 mod exhaust;
+mod props;
 
 use common::*;
 
@@ -12,6 +14,21 @@ fn main() {
     let args: Vec<String> = std::env::args().skip(1).collect();
     if args.is_empty() {
         usage();
+    }
+    if args[0] == "debug" {
+        // utpmc debug <scenario-name> ['[[k,"Drop"],...]']
+        let name = args.get(1).cloned().unwrap_or_default();
+        let mut all = duo::lib::core();
+        all.push(duo::lib::small_writes_nodelay());
+        all.push(duo::lib::mtu_transfer(700, Some(600), None, 9000, false));
+        all.push(duo::lib::mtu_transfer(700, None, None, 9000, false));
+        let scn = all.into_iter().find(|s| s.name == name).unwrap_or_else(|| {
+            eprintln!("unknown scenario");
+            std::process::exit(2)
+        });
+        let plan: Vec<(usize, duo::sim::Fate)> = args.get(2).map(|p| serde_json::from_str(p).expect("plan json")).unwrap_or_default();
+        let v = serde_json::json!({"signature": "", "replay": {"engine": "duo", "scenario": scn, "plan": plan, "abort": "None"}});
+        std::process::exit(duo::replay(&v));
     }
     let prop = args[0].clone();
     let mut tier = match std::env::var("VERIF_TIER").ok().as_deref() {
@@ -61,6 +78,8 @@ fn main() {
     }
 
     let (level, out) = match prop.as_str() {
+        "C01" => ("fault_enumeration", props::c01::run(&ctx)),
+        "C02" => ("fault_enumeration", props::c02::run(&ctx)),
         "C09" => ("model_checking", exhaust::seqnr::run(&ctx)),
         "C11" => ("model_checking", exhaust::wire::run(&ctx)),
         "C15" => ("model_checking", exhaust::cubic::run(&ctx)),
@@ -82,6 +101,7 @@ fn replay_file(_ctx: &Ctx, path: &str) -> i32 {
     let engine = v["replay"]["engine"].as_str().unwrap_or("");
     match engine {
         "exhaust" => exhaust::replay(&v),
+        "duo" => duo::replay(&v),
         _ => machinery_error(&format!("unknown engine {engine:?} in replay file")),
     }
 }
